@@ -196,7 +196,7 @@ class Scenario:
                 try:
                     with open(p, "rb") as f:
                         obj = pickle.load(f)
-                    st = (int(obj.current_rep), list(obj["v"][-1]._value_list), obj.params)
+                    st = (int(obj.current_rep), list(obj["v"][-1].get_result_accumulated_values()), obj.params)
                     kind = "complete"
                 except Exception:  # noqa
                     kind = "torn"
@@ -241,11 +241,9 @@ def execute(sc, ctx, chk):
     cwd0 = os.getcwd()
     try:
         os.chdir(S.fs.root)
-        osw = S.fs.wrap_os()
-        patches = [(R, "time", S.clock), (RES, "open", S.fs.open), (R, "os", osw)]
-        if hasattr(RES, "os"):
-            patches.append((RES, "os", osw))
-        with seams.patched(*patches):
+        # the clock and the file layer are installed process-wide (not only as attributes of the two
+        # library modules that use them today)
+        with S.clock.installed(R, RES), S.fs.installed():
             # plan = sequence of steps; a crashed step is retried by a fresh runner (= restarted process)
             plan = sc.get("plan") or ["all"]
             step = 0
@@ -335,7 +333,7 @@ def judge_completed(sc, S, chk, case, runner, dur, idxs, rep_max, run_no):
             leftover = None
         want_tokens = sorted(base_tokens + rv.succ)
         r = res["v"][pos]
-        got_tokens = sorted(r._value_list)
+        got_tokens = sorted(r.get_result_accumulated_values())
         how = "resumed_from_%s_file" % kind
         if leftover is None or leftover:
             chk.fail(("calls_in_restarted_run", how), dict(case, variation=i),
@@ -361,14 +359,14 @@ def judge_completed(sc, S, chk, case, runner, dur, idxs, rep_max, run_no):
     fn = os.path.join(S.fs.root, sc["fmt"] if sc["fmt"].endswith(".json") else sc["fmt"] + ".pickle")
     try:
         loaded = SimulationResults.load_from_file(fn)
-        same = [sorted(a._value_list) for a in loaded["v"]] == [sorted(a._value_list) for a in res["v"]] \
+        same = [sorted(a.get_result_accumulated_values()) for a in loaded["v"]] == [sorted(a.get_result_accumulated_values()) for a in res["v"]] \
             and list(loaded.runned_reps) == got_reps
     except Exception as e:  # noqa
         loaded, same = None, False
         chk.fail(("final_file", "unloadable", type(e).__name__), case, observed=str(e), expected="loads")
     if loaded is not None and not same:
         chk.fail(("final_file", "differs_from_runner_results"), case,
-                 observed=[a._value_list for a in loaded["v"]], expected=[a._value_list for a in res["v"]])
+                 observed=[a.get_result_accumulated_values() for a in loaded["v"]], expected=[a.get_result_accumulated_values() for a in res["v"]])
     if sc["delete"]:
         left = [p for p in S.fs.image() if p.startswith("partial_results/") and p.endswith(".pickle")]
         if left:
@@ -405,7 +403,7 @@ def judge_foreign(sc, S, chk, case, status, dur, before_img, runner, idxs, nvar,
     if changed:
         if status == "completed":
             chk.fail(("foreign", v, "merged_instead_of_refused"), case,
-                     observed="restart completed; tokens %r" % ([r._value_list for r in runner.results["v"]],),
+                     observed="restart completed; tokens %r" % ([r.get_result_accumulated_values() for r in runner.results["v"]],),
                      expected="an error: saved partial results belong to other parameters")
             return ("foreign", v, "merged")
         first = changed[0]
